@@ -792,3 +792,84 @@ def replay(rec):
     q = [q for q in f().live_queries if q[0] == rec["rule"]][0] if cyc else None
     rp = replay_stock(f, [tuple_deep(c) for c in rec["trace"]], cyc, q)
     return dict(cfg=rec["cfg"], rule=rec["rule"], reproduced=rp["reproduced"], err=rp["err"], path=rp["path"], cycles=rp["cycles"])
+
+
+# ---------------------------------------------------------------------------------------------------
+# AXILiteRemapper / AXIRemapper (what SoCBusHandler.add_master(region=...) inserts for AXI masters): purely combinational,
+# every address of a small space on both address channels, every other signal of the five channels passed through
+# ---------------------------------------------------------------------------------------------------
+from fsmc.design import Design as _Design
+
+AXIREMAP = {
+    "AXILiteRemapper(origin=0x100,size=0x100)": dict(full=False, origin=0x100, size=0x100),
+    "AXILiteRemapper(origin=0x200,size=0x40)": dict(full=False, origin=0x200, size=0x40),
+    "AXILiteRemapper(origin=0,size=None)": dict(full=False, origin=0, size=None),
+    "AXIRemapper(origin=0x300,size=0x80)": dict(full=True, origin=0x300, size=0x80),
+    "AXIRemapper(origin=0x80,size=0x80)": dict(full=True, origin=0x80, size=0x80),
+}
+
+
+def run_axi_remapper(name):
+    kw = AXIREMAP[name]
+    aw = 10
+    class W(Module):
+        def __init__(self):
+            mk = (lambda: axi_full.AXIInterface(data_width=32, address_width=aw, id_width=2)) if kw["full"] else \
+                 (lambda: axi_lite.AXILiteInterface(data_width=32, address_width=aw))
+            self.m, self.s = mk(), mk()
+            cls = axi_full.AXIRemapper if kw["full"] else axi_lite.AXILiteRemapper
+            self.submodules.r = cls(self.m, self.s, origin=kw["origin"], size=kw["size"])
+    w = W()
+    D = _Design(w)
+    size = kw["size"] if kw["size"] is not None else 1 << aw
+    n = 0
+    first = None
+    I = {ch: (D.i(getattr(w.m, ch).addr), D.i(getattr(w.s, ch).addr)) for ch in ("aw", "ar")}
+    # pass-through of the handshake lines (both directions) with an address present
+    hs = [(D.i(getattr(w.m, ch).valid), D.i(getattr(w.s, ch).valid)) for ch in ("aw", "w", "ar")] + \
+         [(D.i(getattr(w.s, ch).valid), D.i(getattr(w.m, ch).valid)) for ch in ("b", "r")] + \
+         [(D.i(getattr(w.s, ch).ready), D.i(getattr(w.m, ch).ready)) for ch in ("aw", "w", "ar")] + \
+         [(D.i(getattr(w.m, ch).ready), D.i(getattr(w.s, ch).ready)) for ch in ("b", "r")]
+    for adr in range(1 << aw):
+        for other in (0, (1 << aw) - 1):
+            for pat in (0, 1):
+                v = D.load(())
+                v[I["aw"][0]], v[I["ar"][0]] = adr, other
+                for k, (src, dst) in enumerate(hs):
+                    v[src] = (k + pat) & 1
+                D.fs.settle()
+                n += 1
+                if n % 97 == 0:
+                    D.conform((), list(v), list(v), ())
+                exp = (kw["origin"] + (adr % size)) & ((1 << aw) - 1)
+                expo = (kw["origin"] + (other % size)) & ((1 << aw) - 1)
+                if first is None and (v[I["aw"][1]], v[I["ar"][1]]) != (exp, expo):
+                    first = dict(rule="remap.address", msg=f"master aw/ar addr {adr:#x}/{other:#x} -> slave {v[I['aw'][1]]:#x}/{v[I['ar'][1]]:#x}, origin + offset gives {exp:#x}/{expo:#x}",
+                                 detail=dict(adr=adr, other=other))
+                if first is None:
+                    for k, (src, dst) in enumerate(hs):
+                        if v[dst] != v[src]:
+                            first = dict(rule="remap.passthrough", msg=f"handshake line {k} not passed through ({v[src]} -> {v[dst]})", detail=dict(adr=adr, line=k))
+                            break
+    return dict(cfg=name, states=n, transitions=n, conformed=n//97, exhaustive=True, violations=[first] if first else [],
+                sample=[dict(master_aw_addr=5, origin=kw["origin"], size=kw["size"])])
+
+
+_cfg9, _run9, _replay9 = configs, run_config, replay
+
+
+def configs(tier):
+    return _cfg9(tier) + [(n,) for n in AXIREMAP]
+
+
+def run_config(cfg, seed, tier):
+    if cfg[0] in AXIREMAP:
+        return run_axi_remapper(cfg[0])
+    return _run9(cfg, seed, tier)
+
+
+def replay(rec):
+    if rec["cfg"] in AXIREMAP:
+        r = run_axi_remapper(rec["cfg"])
+        return dict(cfg=rec["cfg"], rule=rec["rule"], reproduced=bool(r["violations"]))
+    return _replay9(rec)
